@@ -50,7 +50,7 @@ CHECKS = {
         design="6 C07"),
     "C06": dict(
         level="model_checking",
-        technique="LadimTrace: output files decoded with netCDF4 are validated by TLC against the history of state snapshots recorded when output.update() was called; OutFile model-checked (MC_OutFile)",
+        technique="LadimTrace: output files decoded with netCDF4 are validated by TLC against the history of state snapshots recorded when output.update() was called; OutFile model-checked (MC_OutFile); dense layout on the composed model (MC_Ladim_dense: DenseAddressing; control configuration with compaction after every step refuted)",
         text="For every recorded run TLC requires: records retrievable by the cumulative particle_count rule (counts sum to the instance dimension), record k = the living particles of the snapshot at the k-th due output call with exactly the state's values (pid, X, Y, Z, age, farm), time coordinate = model time with the stated reference, particle variables at index pid for every particle released up to the file's last record, dense layout decoded at [time, pid].",
         note="Two thirds of the scenarios are directed (2-5 scripted deaths/freezes, particle variables). Values compared exactly (f8/i4 output).",
         design="6 C06"),
